@@ -117,7 +117,36 @@ impl Decimal {
     pub fn round(&self) -> (r: Decimal) ensures r == dec_round(*self) { unimplemented!() }
     #[verifier::external_body]
     pub fn fract(&self) -> (r: Decimal) ensures r == dec_fract(*self) { unimplemented!() }
+    // neighbouring API (not used by the crate today): specified so that a change that switches to one of them is REFUTED
+    // against the table (different uninterpreted function) instead of being a tool limit
+    #[verifier::external_body]
+    pub fn trunc(&self) -> (r: Decimal) ensures r == dec_trunc(*self) { unimplemented!() }
+    #[verifier::external_body]
+    pub fn ceil(&self) -> (r: Decimal) ensures r == dec_ceil(*self) { unimplemented!() }
+    #[verifier::external_body]
+    pub fn abs(&self) -> (r: Decimal) ensures r == dec_abs(*self) { unimplemented!() }
+    #[verifier::external_body]
+    pub fn round_dp(&self, dp: u32) -> (r: Decimal) ensures r == dec_round_dp(*self, dp) { unimplemented!() }
+    #[verifier::external_body]
+    pub fn is_zero(&self) -> (r: bool) ensures r == dec_is_zero(*self) { unimplemented!() }
+    #[verifier::external_body]
+    pub fn is_sign_negative(&self) -> (r: bool) ensures r == dec_is_neg(*self) { unimplemented!() }
+    #[verifier::external_body]
+    pub fn saturating_add(self, rhs: Decimal) -> (r: Decimal) ensures r == dec_sat_add(self, rhs) { unimplemented!() }
+    #[verifier::external_body]
+    pub fn saturating_sub(self, rhs: Decimal) -> (r: Decimal) ensures r == dec_sat_sub(self, rhs) { unimplemented!() }
+    #[verifier::external_body]
+    pub fn saturating_mul(self, rhs: Decimal) -> (r: Decimal) ensures r == dec_sat_mul(self, rhs) { unimplemented!() }
 }
+pub uninterp spec fn dec_trunc(a: Decimal) -> Decimal;
+pub uninterp spec fn dec_ceil(a: Decimal) -> Decimal;
+pub uninterp spec fn dec_abs(a: Decimal) -> Decimal;
+pub uninterp spec fn dec_round_dp(a: Decimal, dp: u32) -> Decimal;
+pub uninterp spec fn dec_is_zero(a: Decimal) -> bool;
+pub uninterp spec fn dec_is_neg(a: Decimal) -> bool;
+pub uninterp spec fn dec_sat_add(a: Decimal, b: Decimal) -> Decimal;
+pub uninterp spec fn dec_sat_sub(a: Decimal, b: Decimal) -> Decimal;
+pub uninterp spec fn dec_sat_mul(a: Decimal, b: Decimal) -> Decimal;
 
 // num_traits::ToPrimitive (re-exported by rust_decimal::prelude): checked numeric conversions
 pub trait ToPrimitive: Sized {
